@@ -36,7 +36,7 @@ int mv_malloc_calls; size_t mv_malloc_size; Janet *mv_values; size_t mv_left_at_
 void *mv_malloc_stub(size_t size) {
   mv_malloc_calls++; mv_malloc_size = size; mv_left_at_malloc = ma_n - mv_cur;
 #ifndef MV_NO_DOS
-  __CPROVER_assert(size / sizeof(Janet) <= ma_n - mv_cur, "C10 funcenv off stack (DOS): the values block requested on behalf of the untrusted length is not larger than what the rest of the input can fill (every value takes at least one byte) - a failed allocation is not a catchable error, it exits the process");
+  __CPROVER_assert(size / sizeof(Janet) <= ma_n - mv_cur, "C10 funcenv off stack (DOS): the values block requested on behalf of the untrusted length has at most one slot per byte of input that is left (sizeof(Janet) bytes per input byte) - a failed allocation is not a catchable error, it exits the process");
 #endif
   void *p = __CPROVER_allocate(size, 0); mv_values = p; return p;    /* (a failed allocation exits the process: JANET_OUT_OF_MEMORY) */
 }
